@@ -49,12 +49,12 @@ var depends = map[string][]string{
 	"C12": {},
 	"C13": {"C02"},
 	"C14": {},
-	"C15": {"C05", "C06"},
+	"C15": {"C05", "C06", "C20"},
 	"C16": {"C05", "C09"},
 	"C17": {"C02"},
 	"C18": {"C11", "C12", "C16", "C03"},
 	"C19": {"C04"},
-	"C20": {"C05", "C13"},
+	"C20": {"C05", "C13", "C07"},
 }
 
 // runWithDeps evaluates a property's rules and those it depends on (one level).
@@ -79,12 +79,37 @@ func main() {
 	overlayF := flag.String("overlay", "", "JSON file: absolute path -> replacement content (probe tier)")
 	explain := flag.String("explain", "", "print a stored replay file")
 	list := flag.Bool("list", false, "list properties")
+	lintM := flag.Bool("lint-mutants", false, "check that every overlay mutant still has exactly one anchor in -repo")
 	dumpA := flag.String("dump-anchors", "", "write the fingerprint table of the unexported functions of -repo to this file (run on the confirmed tree)")
 	sweepF := flag.String("sweep", "", "file listing repo-relative .go files to mutate (generic mutation sweep)")
 	sweepOut := flag.String("out", "sweep.json", "sweep result file")
 	sweepPar := flag.Int("par", 6, "parallel probes in a sweep")
 	sweepOps := flag.String("ops", "", "restrict sweep to these operators (e.g. NEG,ROR)")
 	flag.Parse()
+	if *lintM {
+		bad := 0
+		var ids []string
+		for id := range props {
+			ids = append(ids, id)
+		}
+		sort.Strings(ids)
+		n := 0
+		for _, id := range ids {
+			for _, m := range props[id].mutants {
+				n++
+				src, err := os.ReadFile(filepath.Join(*repo, m.File))
+				if err != nil || strings.Count(string(src), m.Old) != 1 {
+					bad++
+					fmt.Printf("INAPPLICABLE %s %q (%s)\n", id, m.Name, m.File)
+				}
+			}
+		}
+		fmt.Printf("%d overlay mutants, %d inapplicable\n", n, bad)
+		if bad > 0 {
+			os.Exit(1)
+		}
+		return
+	}
 	if *dumpA != "" {
 		p, err := loadProg(loadOpts{dir: *repo, noCG: true})
 		if err != nil || len(p.LoadErrs) > 0 {
